@@ -354,8 +354,14 @@ impl IgnoreFilter {
 
 			// Unwrap will always succeed because every node has an entry.
 			let ignores = trie_node.value().unwrap();
+			let trie_path = Path::new(trie_node.key().unwrap());
 
-			let match_ = if path.strip_prefix(&self.origin).is_ok() {
+			let match_ = if !search_path.starts_with(trie_path) {
+				// the trie looks up string prefixes, so `/a/test` is found for `/a/tests/file`
+				// even though it's not one of its ancestors: skip it and carry on upwards
+				trace!(?path, ?search_path, ?trie_path, "not an ancestor, skipping");
+				Match::None
+			} else if path.strip_prefix(&self.origin).is_ok() {
 				trace!(?path, ?search_path, "checking against path or parents");
 				ignores.gitignore.matched_path_or_any_parents(path, is_dir)
 			} else {
@@ -370,8 +376,6 @@ impl IgnoreFilter {
 						?search_path,
 						"no match found, searching for parent ignores"
 					);
-					// Unwrap will always succeed because every node has an entry.
-					let trie_path = Path::new(trie_node.key().unwrap());
 					if let Some(trie_parent) = trie_path.parent() {
 						trace!(?path, ?search_path, "checking parent ignore");
 						search_path = trie_parent;
